@@ -7,6 +7,8 @@ verus! {
 /// the file is a byte sequence `c`; a line ends with b'\n' (10) or at EOF.
 /// position of the first byte after the line that contains byte p (0 <= p < |c|): this is
 /// what `BufRead::read_line` consumes up to when started at p.
+/// (opaque: the loop proof uses it only through lemma_nls; unfolding the recursion there made the query unstable)
+#[verifier::opaque]
 pub open spec fn nls(c: Seq<u8>, p: int) -> int
     decreases c.len() - p
 {
@@ -31,6 +33,7 @@ proof fn lemma_nls(c: Seq<u8>, p: int)
         forall|q: int| p < q < nls(c, p) ==> !is_line_start(c, q),
     decreases c.len() - p,
 {
+    reveal_with_fuel(nls, 2);
     if c[p] == 10u8 {
         assert(nls(c, p) == p + 1);
     } else if p + 1 < c.len() {
@@ -79,6 +82,26 @@ impl VLines {
             r is Ok ==> r->Ok_0 as int == final(self).pos() - old(self).pos(),
     { unimplemented!() }
 
+    /// `BufRead::fill_buf` (not used by the code today; present so that an edit using it is judged): returns SOME
+    /// non-empty prefix of what remains from the current position (how much is the buffer's business -- 8 KiB in
+    /// std's BufReader), empty exactly at/after EOF; nothing is consumed.
+    #[verifier::external_body]
+    fn fill_buf(&mut self) -> (r: Result<VBuf, IoError>)
+        ensures
+            final(self).content() == old(self).content(), final(self).pos() == old(self).pos(),
+            r matches Ok(b) ==> {
+                &&& b@.len() <= isize::MAX
+                &&& (0 <= old(self).pos() < old(self).content().len() ==> 0 < b@.len() <= old(self).content().len() - old(self).pos()
+                        && b@ == old(self).content().subrange(old(self).pos(), old(self).pos() + b@.len()))
+                &&& (old(self).pos() >= old(self).content().len() ==> b@.len() == 0)
+            },
+    { unimplemented!() }
+    /// `BufRead::consume(n)`
+    #[verifier::external_body]
+    fn consume(&mut self, n: usize)
+        ensures final(self).content() == old(self).content(), final(self).pos() == old(self).pos() + n,
+    { unimplemented!() }
+
     /// `seek(SeekFrom::Current(0))`: reports the logical position
     #[verifier::external_body]
     fn tell(&mut self) -> (r: Result<u64, IoError>)
@@ -86,6 +109,24 @@ impl VLines {
             final(self).content() == old(self).content(),
             final(self).pos() == old(self).pos(),
             r is Ok ==> r->Ok_0 as int == old(self).pos(),
+    { unimplemented!() }
+}
+
+/// the slice `fill_buf` hands out (owned here; borrowing the reader is irrelevant to the contract)
+#[verifier::external_body]
+pub struct VBuf { _p: u8 }
+impl VBuf {
+    pub uninterp spec fn view(&self) -> Seq<u8>;
+    #[verifier::external_body]
+    fn len(&self) -> (r: usize) ensures r == self@.len() { unimplemented!() }
+    #[verifier::external_body]
+    fn is_empty(&self) -> (r: bool) ensures r == (self@.len() == 0) { unimplemented!() }
+    /// `buf.iter().position(|b| *b == b'\n')`: index of the first newline
+    #[verifier::external_body]
+    fn position_nl(&self) -> (r: Option<usize>)
+        ensures
+            r matches Some(i) ==> i < self@.len() && self@[i as int] == 10u8 && forall|k: int| 0 <= k < i ==> self@[k] != 10u8,
+            r is None ==> forall|k: int| 0 <= k < self@.len() ==> self@[k] != 10u8,
     { unimplemented!() }
 }
 
